@@ -258,4 +258,22 @@ Section Stacks.
     let '(stacks, s) := make_initial_stacks p in
     {| ss_total := compute_total p; ss_type := o_type o;
        ss_stacks := stacks; ss_sources := fill_places stacks (st_srcs s) |}.
+
+  (* ------------------------------------------------------------ Stacks() as an operation on a report
+     A Report holds a pointer to its profile and several reports may share one profile.  Stacks() is
+     called any number of times (every /flamegraph request on a report, every caller of the API).
+     What a call can reach is the profile; the unchanged code only reads it, so a call returns the
+     stack set and leaves the profile as it found it.  [os] = the options of the report each
+     successive call is made on (all reports share the profile). *)
+  Definition stacks_call (p : profile) : stackset * profile := (stacks_of p, p).
 End Stacks.
+
+Section Calls.
+  Variable shorten clean : string -> string.
+  Fixpoint stacks_calls (os : list opts) (p : profile) : list stackset * profile :=
+    match os with
+    | [] => ([], p)
+    | o :: r => let '(R, p1) := stacks_call shorten clean o p in
+                let '(Rs, p2) := stacks_calls r p1 in (R :: Rs, p2)
+    end.
+End Calls.
